@@ -1729,13 +1729,36 @@ fn run_tw(ws: &[&str]) -> (String, String) {
         let mine: Vec<u8> = got.iter().copied().filter(|b| b.is_ascii_uppercase() == upper).collect();
         mine.len() == (if upper { n } else { m }) && mine.iter().enumerate().all(|(i, b)| *b == base + (i % 26) as u8)
     };
+    // pieces of at most PIPE_BUF bytes are atomic: wherever the output switches from one writer to the
+    // other, the bytes of the writer that was interrupted are a whole number of its pieces (or all)
+    let atomic = if piece == 0 || piece > PIPE_BUF {
+        true
+    } else {
+        let mut counts = [0usize; 2];
+        let mut ok = true;
+        for i in 0..got.len() {
+            let who = got[i].is_ascii_uppercase() as usize;
+            counts[who] += 1;
+            let switches = i + 1 < got.len() && (got[i + 1].is_ascii_uppercase() as usize) != who;
+            let total = if who == 1 { n } else { m };
+            if switches && counts[who] % piece != 0 && counts[who] != total {
+                ok = false;
+            }
+        }
+        ok
+    };
     let obs = format!(
-        "len={} A={} a={}",
+        "len={} A={} a={} atomic={}",
         got.len(),
         if in_order(true) { "ok" } else { "bad" },
-        if in_order(false) { "ok" } else { "bad" }
+        if in_order(false) { "ok" } else { "bad" },
+        if atomic { "ok" } else { "bad" }
     );
-    let oracle = if got.len() == n + m && in_order(true) && in_order(false) { "ok" } else { "FAIL:two-writers" };
+    let oracle = if got.len() == n + m && in_order(true) && in_order(false) && atomic {
+        "ok"
+    } else {
+        "FAIL:two-writers-data"
+    };
     (obs, oracle.into())
 }
 
@@ -1848,7 +1871,12 @@ fn gen_dbl(rng: &mut Rng) -> String {
     )
 }
 
+/// Appended to the case text of a two-writer case whose verdict is exactly the known deadlock of the
+/// simulated system (check.py matches known findings on the case text only); ignored when read.
+const KNOWN_MARK: &str = "; !kf-two-writers-deadlock";
+
 fn run_case(case: &str) -> (String, String) {
+    let case = case.strip_suffix(KNOWN_MARK).unwrap_or(case);
     let ws: Vec<&str> = case.split_whitespace().collect();
     match ws.first() {
         Some(&"xfer") => run_xfer(&ws[1..]),
@@ -1880,7 +1908,13 @@ fn main() {
             o
         });
         let v = oracle.take();
-        emit(case, &obs, if obs.starts_with("PANIC") { "FAIL:panic" } else { &v });
+        let bare = case.strip_suffix(KNOWN_MARK).unwrap_or(case);
+        if bare.starts_with("tw ") && obs == "TIMEOUT" && v == "FAIL:deadlock" {
+            // exactly the known finding: two writers on one pipe, nothing delivered wrongly, stuck
+            emit(&format!("{bare}{KNOWN_MARK}"), &obs, &v);
+        } else {
+            emit(bare, &obs, if obs.starts_with("PANIC") { "FAIL:panic" } else { &v });
+        }
     };
 
     let (fixed, only) = opts.fixed_cases();
@@ -1946,17 +1980,25 @@ fn main() {
         }
     }
 
-    // (ii-h) two writers on one pipe: only on request (`--two-writers`), because the unchanged tree
-    // deadlocks on some of them (see notes/C14.md "Two writers on one pipe"; witness in corpus/C14)
-    if opts.extra.iter().any(|a| a == "--two-writers") {
-        for n in [10usize, 600, 1025, 3000, 5000] {
-            for m in [10usize, 600, 1025, 2000, 5000] {
+    // (ii-h) two writers on one pipe (one pipeline stage `{ w1 & w2; wait; }`): sizes around PIPE_BUF and
+    // PIPE_SIZE; some combinations deadlock in the simulated system (known finding, marked in the case text)
+    if thorough {
+        for n in [10usize, 600, PIPE_SIZE + 1, 3000, 5000] {
+            for m in [10usize, 600, PIPE_SIZE + 1, 2000, 5000] {
                 for piece in [0usize, 100, 600] {
                     for nowait in 0..2 {
                         run(&format!("tw n={n} piece={piece} m={m} nowait={nowait}"), false);
                     }
                 }
             }
+        }
+    } else {
+        let tw_sizes = [1usize, PIPE_BUF - 1, PIPE_BUF + 1, PIPE_SIZE, PIPE_SIZE + 1, 3000, 5000];
+        for _ in 0..48 {
+            let n = *rng.pick(&tw_sizes);
+            let m = *rng.pick(&tw_sizes);
+            let piece = *rng.pick(&[0usize, 0, 100, PIPE_BUF, 600]);
+            run(&format!("tw n={n} piece={piece} m={m} nowait={}", rng.below(2)), false);
         }
     }
 
